@@ -643,9 +643,36 @@ def ratnf(t, cap=4000, memo=None):
             n1, d1 = memo[n.a[0].id]
             r = ({m: -c for m, c in n1.items()}, d1)
         else:
-            r = ({((n.id, 1),): Fraction(1)}, one)
+            r = ({((canon_id(n, cap), 1),): Fraction(1)}, one)
         memo[n.id] = r
     return memo[t.id]
+
+
+_canon = {}          # node id -> canonical leaf id
+_canon_reps = {}     # (op, payload, arity) -> list of representative nodes
+
+
+def canon_id(n, cap=4000):
+    """canonical identity of an opaque (non-arithmetic) node: two function applications with the same symbol whose
+    arguments are equal as rational functions share one identity (congruence closure restricted to rat_equal)"""
+    c = _canon.get(n.id)
+    if c is not None:
+        return c
+    if n.op not in ('fn', 'uf') or not n.a:
+        _canon[n.id] = n.id
+        return n.id
+    key = (n.op, n.p, len(n.a))
+    reps = _canon_reps.setdefault(key, [])
+    _canon[n.id] = n.id          # provisional (guards against cycles)
+    for r in reps:
+        try:
+            if all((x is y) or rat_equal(x, y, cap) for x, y in zip(n.a, r.a)):
+                _canon[n.id] = _canon[r.id]
+                return _canon[n.id]
+        except RecursionError:
+            break
+    reps.append(n)
+    return n.id
 
 
 def rat_equal(a, b, cap=4000):
